@@ -14,6 +14,8 @@
                              nb_channels = nb_streams + nb_coupled), settings through the public ctl; prints the layout the
                              encoder really has (`# LAYOUT`), the allocation, and after one real encode call the bit-rate each
                              stream's encoder stored (`I encskel msuser ... <i>` / `O v=`)
+     corpus <file>           the regression cases of corpus/C05/msrate_cases.txt (explicit mappings with muted input channels; the
+                             first is the pre-fix overflow of :729), through the public API as in api
      generic <seed> <n>      as api, explicit mappings with nb_channels up to 255 > nb_streams + nb_coupled (muted / shared input
                              channels), where the OPUS_SET_BITRATE range 300000*nb_channels is far above what the streams take */
 #include "vcommon.h"
@@ -171,12 +173,46 @@ static void run_api(uint64_t seed, long nconf, int generic)
    printf("# msrate %s configs=%ld\n", generic ? "generic" : "api", nconf);
 }
 
+/* regression corpus: explicit layouts with muted input channels (file format in corpus/C05/msrate_cases.txt) */
+static void run_corpus(const char *path)
+{
+   FILE *f = fopen(path, "r"); char line[256]; long n = 0; vrng r; r.s = 12345;
+   if (!f) { fprintf(stderr, "cannot open %s\n", path); exit(64); }
+   while (fgets(line, sizeof line, f)) {
+      int fs, fsz, ch, streams, coupled, br, err = 0, i; unsigned char map[255]; OpusMSEncoder *ms;
+      static float x[5760 * 255]; static unsigned char out[8000]; OpusMSEncoder *st; int ret;
+      if (line[0] == '#' || sscanf(line, "%d %d %d %d %d %d", &fs, &fsz, &ch, &streams, &coupled, &br) != 6) continue;
+      memset(map, 255, sizeof map);
+      for (i = 0; i < streams + coupled; i++) map[i] = (unsigned char)i;
+      ms = opus_multistream_encoder_create(fs, ch, streams, coupled, map, OPUS_APPLICATION_AUDIO, &err);
+      if (!ms) { printf("# MSRATE-CREATE-FAILED corpus ch=%d err=%d\n", ch, err); continue; }
+      st = ms;
+      printf("# LAYOUT fam=-1 fs=%d ch=%d nch=%d streams=%d coupled=%d lfe=%d mt=%d\n", fs, ch, st->layout.nb_channels, streams, coupled, st->lfe_stream, (int)st->mapping_type);
+      err = opus_multistream_encoder_ctl(ms, OPUS_SET_BITRATE(br));
+      printf("I encskel msctl %d %d\nO v=%d\n", ch, br, err == OPUS_OK ? (int)st->bitrate_bps : -99999);
+      emit(st, fs, fsz);
+      for (i = 0; i < fsz * ch; i++) x[i] = 0.25f * (float)sin(0.013 * (i / ch) * (1 + i % ch)) + 0.02f * ((int)vbelow(&r, 2001) - 1000) / 1000.f;
+      ret = opus_multistream_encode_float(ms, x, fsz, out, 8000);
+      if (ret < 0) printf("# MSRATE-ENCODE-FAILED ret=%d corpus ch=%d fs=%d fsz=%d br=%d\n", ret, ch, fs, fsz, br);
+      else for (i = 0; i < streams; i++) {
+         OpusEncoder *e; opus_int32 got = 0;
+         opus_multistream_encoder_ctl(ms, OPUS_MULTISTREAM_GET_ENCODER_STATE(i, &e));
+         opus_encoder_ctl(e, OPUS_GET_BITRATE(&got));
+         printf("I encskel msuser %d %d %d %d %d %d %d %d\nO v=%d\n", fs, fsz, streams, coupled, st->lfe_stream, 0, (int)st->bitrate_bps, i, (int)got);
+      }
+      opus_multistream_encoder_destroy(ms); n++;
+   }
+   fclose(f);
+   printf("# msrate corpus cases=%ld\n", n);
+}
+
 int main(int argc, char **argv)
 {
-   if (argc < 3) { fprintf(stderr, "usage: c05_msrate grid <level> | api <seed> <n> | generic <seed> <n>\n"); return 64; }
+   if (argc < 3) { fprintf(stderr, "usage: c05_msrate grid <level> | api <seed> <n> | generic <seed> <n> | corpus <file>\n"); return 64; }
    setvbuf(stdout, NULL, _IOFBF, 1 << 16);
    vinstall_traps();
    if (!strcmp(argv[1], "grid")) run_grid(atoi(argv[2]));
+   else if (!strcmp(argv[1], "corpus")) run_corpus(argv[2]);
    else if (!strcmp(argv[1], "api") && argc >= 4) run_api(strtoull(argv[2], 0, 10), atol(argv[3]), 0);
    else if (!strcmp(argv[1], "generic") && argc >= 4) run_api(strtoull(argv[2], 0, 10), atol(argv[3]), 1);
    else return 64;
